@@ -82,6 +82,7 @@ func runPairOpts(sa, sb *sessSpec, segSeed int64, limA, limB int, editsAB, edits
 		}
 	}
 	ca, cb := newMemPipe(mk(rngA), mk(rngB))
+	ca.DetectDeadlock()
 	if limA >= 0 {
 		ca.CutAfter(limA)
 	}
